@@ -15,6 +15,7 @@ import (
 	"reflect"
 	"strings"
 
+	z "github.com/Oudwins/zog"
 	"zogverif/mc"
 	"zogverif/zh"
 )
@@ -264,7 +265,91 @@ func init() {
 			"PostTransforms are not part of this space",
 		},
 		Items: func(tier string) []Item {
-			return coreItems(tier, c05Scenario, func(a *Alpha) { a.NegStr = true; a.PathT1 = true; a.DoubleT2 = true }, []int{0, 1}, 0)
+			items := coreItems(tier, c05Scenario, func(a *Alpha) { a.NegStr = true; a.PathT1 = true; a.DoubleT2 = true }, []int{0, 1}, 0)
+			return append(items, Item{Name: "catching-node-behind-preprocess", MaxDevs: -1, Run: c05PreprocessScenario})
 		},
 	})
+}
+
+// ---------------------------------------------------------------------------
+// A catching primitive behind Preprocess, as slice elements and as struct fields: the failure of the
+// Preprocess function itself (an error, a wrongly typed input) is not the wrapped node's failure and is
+// reported at the element's path, whatever a neighbouring element's catching node did before.
+
+type c05Pre struct {
+	A int
+	B int
+}
+
+func c05PreprocessScenario(x *mc.X) *mc.Outcome {
+	zh.Reset()
+	zh.Install(x, zh.PoolLIFO, zh.OrderFree)
+	mode := x.Choose(2, "container") // 0 slice of 2..3 elements, 1 struct with two such fields
+	mk := func() z.ZogSchema {
+		return z.Preprocess(func(s string, ctx z.Ctx) (int, error) {
+			if s == "err" {
+				return 0, fmt.Errorf("preprocess refused %q", s)
+			}
+			return len(s), nil
+		}, z.Int().GT(2).Catch(-7))
+	}
+	// element classes: ok (len 3), caught (len 1 fails GT(2) -> catch), preprocess error, wrongly typed input
+	classes := []struct {
+		name  string
+		in    any
+		issue string // "" none
+		val   int
+	}{{"ok", "abc", "", 3}, {"caught", "a", "", -7}, {"preprocess-error", "err", "custom", 0}, {"wrong-type", 12, "coerce", 0}}
+	n := 2
+	if mode == 0 {
+		n = 2 + x.Choose(2, "len")
+	}
+	var idx []int
+	for i := 0; i < n; i++ {
+		idx = append(idx, x.Choose(len(classes), fmt.Sprintf("el%d", i)))
+	}
+	var issues z.ZogIssueMap
+	var got []int
+	var keys []string
+	if mode == 0 {
+		var in []any
+		for i, c := range idx {
+			in = append(in, classes[c].in)
+			keys = append(keys, fmt.Sprintf("[%d]", i))
+		}
+		var d []int
+		issues = z.Slice(mk()).Parse(in, &d)
+		got = d
+	} else {
+		keys = []string{"a", "b"}
+		var d c05Pre
+		issues = z.Struct(z.Schema{"a": mk(), "b": mk()}).Parse(map[string]any{"a": classes[idx[0]].in, "b": classes[idx[1]].in}, &d)
+		got = []int{d.A, d.B}
+	}
+	zh.Reset()
+	out := &mc.Outcome{Traces: 1, Nontrivial: true}
+	var want, have []string
+	for i, c := range idx {
+		if classes[c].issue != "" {
+			want = append(want, keys[i])
+		}
+		if len(issues[keys[i]]) > 0 {
+			have = append(have, keys[i])
+		}
+	}
+	out.Sig = fmt.Sprintf("pre|%d|%v", mode, idx)
+	out.Sample = map[string]any{"container": mode, "elements": idx, "issue_keys": have, "dest": fmt.Sprint(got)}
+	if !eqStrings(want, have) {
+		x.Note("container %d (0 slice, 1 struct) of Preprocess(string->int, Int.GT(2).Catch(-7)); element classes %v (0 ok, 1 caught by the wrapped node, 2 preprocess error, 3 wrongly typed input)", mode, idx)
+		out.Viol = append(out.Viol, &mc.Violation{Key: fmt.Sprintf("C05:preprocess-neighbour:%d", mode), What: "the failure of a Preprocess function next to a catching node is not reported exactly where it happened", Expected: fmt.Sprint(want), Observed: fmt.Sprint(have)})
+		return out
+	}
+	for i, c := range idx {
+		if classes[c].issue == "" && i < len(got) && got[i] != classes[c].val {
+			x.Note("element classes %v", idx)
+			out.Viol = append(out.Viol, &mc.Violation{Key: fmt.Sprintf("C05:preprocess-value:%d", mode), What: "a catching node behind Preprocess holds neither its parsed value nor its catch value", Expected: fmt.Sprint(classes[c].val), Observed: fmt.Sprint(got[i])})
+			return out
+		}
+	}
+	return out
 }
